@@ -84,6 +84,7 @@ func runConcMode(cf ccfg, prefix []concOp, progs [][]concOp, choices []int, time
 	if free {
 		s.Release()
 	}
+	defer attachFine(s, free)()
 	var mu sync.Mutex
 	res := concRun{rets: make([][]string, len(progs)), writes: map[int][][]byte{}}
 	cur := map[string]*concOp{}
@@ -318,9 +319,10 @@ func concExplore(c *core.Ctx, sig string, cf ccfg, prefix []concOp, progs [][]co
 		prefixModel = strings.Join(ps, ";")
 	}
 	distinct := map[string]bool{}
-	n, exhaustive = sched.Explore(max, func(choices []int) []int {
+	n, exhaustive = explore(c, max, func(choices []int) []int {
 		c.InFlight(map[string]interface{}{"cfg": cf.model(), "prefix": prefixModel, "programs": renderProgs(cf, progs), "choices": fmt.Sprint(choices), "note": note})
 		run := runConc(cf, prefix, progs, choices, 300*time.Millisecond)
+		choices = effective(choices, run.widths)
 		c.Eval()
 		tr := strings.Join(run.events, ";")
 		distinct[tr] = true
